@@ -640,11 +640,135 @@ type c18Stats struct {
 	anomalyReleased             bool // eviction from a node with >= k consecutive rounds
 	numNodesQuirk               bool // gate passed although the count of nodes under the *node-level* low thresholds <= NumberOfNodes
 	failedCall, noMetricEvicted bool
+	hysteresisAccepted          bool // an eviction with a streak < k was accepted only because an abnormal episode was still unresolved
 }
 
-// c18Judge checks the recorded Evict calls of one round against the statement. cons (optional) holds, per tier and
-// node, the number of consecutive rounds ending with this one in which the node was above its high threshold.
-func c18Judge(cfg *c18Cfg, rd *c18Round, ref *c18Ref, calls []c18Call, cons *[2][]int) ([]c18Finding, c18Stats) {
+// c18Anom is the reference state of the anomaly clause, kept by the history harness from the inputs and the
+// recorded calls alone (per tier and node):
+//   - streak: number of consecutive rounds ending with the current one in which the node was MEASURED above its high
+//     threshold (cut by a round in which it is measured not above, or not measured at all);
+//   - open: the node is in an unresolved abnormal episode. An episode opens when the streak reaches the configured
+//     ConsecutiveAbnormalities. It is resolved (a) by a drain that brought the node's running usage estimate back
+//     under the high threshold ("it stops as soon as the node's estimated usage is back under the high threshold":
+//     the overload is dealt with), or (b) by more than ConsecutiveNormalities consecutive rounds in which the node is
+//     measured not above the threshold (the documented way out of the abnormal state; "more than" as the detector
+//     documents it, the widest reading).
+//
+// An eviction is accepted when streak >= k, or - leniency for the configured hysteresis, which the statement does
+// not describe - while an episode is open.
+type c18Anom struct {
+	streak   [2][]int
+	open     [2][]bool
+	normals  [2][]int
+	lastNo   [2][]string // what the node looked like in the last round that cut its streak (witness class only)
+	closedBy [2][]string // how the last episode was resolved (witness class only)
+}
+
+func c18NewAnom(n int) *c18Anom {
+	a := &c18Anom{}
+	for t := 0; t < 2; t++ {
+		a.streak[t] = make([]int, n)
+		a.open[t] = make([]bool, n)
+		a.normals[t] = make([]int, n)
+		a.lastNo[t] = make([]string, n)
+		a.closedBy[t] = make([]string, n)
+	}
+	return a
+}
+
+// beginRound updates streaks / episodes from the measurements of the new round (before its evictions are judged).
+func (a *c18Anom) beginRound(cfg *c18Cfg, ref *c18Ref) {
+	for t := 0; t < 2; t++ {
+		for i := 0; i < ref.n; i++ {
+			switch {
+			case ref.valid[i] && ref.over[t][i]:
+				a.streak[t][i]++
+				a.normals[t][i] = 0
+				if a.streak[t][i] >= int(cfg.AnomalyK) && !a.open[t][i] {
+					a.open[t][i] = true
+					a.closedBy[t][i] = ""
+				}
+			case !ref.valid[i]:
+				a.streak[t][i] = 0
+				a.lastNo[t][i] = "no-metric"
+			default:
+				a.streak[t][i] = 0
+				a.normals[t][i]++
+				if a.open[t][i] && a.normals[t][i] > int(cfg.AnomalyN) {
+					a.open[t][i] = false
+					a.closedBy[t][i] = "normal-rounds"
+				}
+				if ref.under[t][i] {
+					a.lastNo[t][i] = "underused"
+				} else {
+					a.lastNo[t][i] = "between-thresholds"
+				}
+			}
+		}
+	}
+}
+
+// endRound resolves the episodes of the nodes whose drain brought the running estimate back under the threshold.
+func (a *c18Anom) endRound(cfg *c18Cfg, rd *c18Round, ref *c18Ref, calls []c18Call) (closed int) {
+	n := ref.n
+	var evicted [2][]c18Vec
+	gone := make([]map[int]bool, n)
+	for t := 0; t < 2; t++ {
+		evicted[t] = make([]c18Vec, n)
+	}
+	for _, c := range calls {
+		if c.Unknown || !c.OK || c.Node >= n || c.Pod >= len(rd.Nodes[c.Node].Pods) {
+			continue
+		}
+		if gone[c.Node] == nil {
+			gone[c.Node] = map[int]bool{}
+		}
+		gone[c.Node][c.Pod] = true
+		pod := rd.Nodes[c.Node].Pods[c.Pod]
+		evicted[c18TierNode][c.Node] = evicted[c18TierNode][c.Node].add(pod.usage())
+		if pod.Prod {
+			evicted[c18TierProd][c.Node] = evicted[c18TierProd][c.Node].add(pod.usage())
+		}
+	}
+	for t := 0; t < 2; t++ {
+		if !cfg.tierConfigured(t) {
+			continue
+		}
+		for i := 0; i < n; i++ {
+			if !(ref.valid[i] && ref.over[t][i] && a.open[t][i] && len(gone[i]) > 0) {
+				continue
+			}
+			still := false
+			for r := 0; r < 2; r++ {
+				// back under beyond any rounding doubt: at or below the smallest value the threshold can have
+				if ref.cfgd[t][r] && ref.use[t][i][r]-evicted[t][i][r] > ref.high[t][i][r].lo {
+					still = true
+				}
+			}
+			if still || evicted[t][i] == (c18Vec{}) {
+				continue
+			}
+			// witness class: did the drain leave a pod on the node that passes the filters (in the prod tier: a prod pod)?
+			left := false
+			for j, p := range rd.Nodes[i].Pods {
+				if !gone[i][j] && p.Flag != c18FlagRej && (t == c18TierNode || p.Prod) {
+					left = true
+				}
+			}
+			a.open[t][i] = false
+			a.closedBy[t][i] = "drain"
+			if !left {
+				a.closedBy[t][i] = "drain-that-took-the-last-candidate-pod"
+			}
+			closed++
+		}
+	}
+	return closed
+}
+
+// c18Judge checks the recorded Evict calls of one round against the statement. cons (optional) is the reference
+// state of the anomaly clause for this round (after beginRound).
+func c18Judge(cfg *c18Cfg, rd *c18Round, ref *c18Ref, calls []c18Call, cons *c18Anom) ([]c18Finding, c18Stats) {
 	var out []c18Finding
 	var st c18Stats
 	add := func(clause, format string, a ...any) {
@@ -709,8 +833,8 @@ func c18Judge(cfg *c18Cfg, rd *c18Round, ref *c18Ref, calls []c18Call, cons *[2]
 					break
 				}
 			}
-			if cons != nil && cfg.AnomalyK >= 2 && (*cons)[t][c.Node] < int(cfg.AnomalyK) {
-				f("anomaly-not-consecutive", "node n%d was above its high threshold in only %d consecutive round(s) ending now, condition needs %d", c.Node, (*cons)[t][c.Node], cfg.AnomalyK)
+			if cons != nil && cfg.AnomalyK >= 2 && cons.streak[t][c.Node] < int(cfg.AnomalyK) && !cons.open[t][c.Node] {
+				f("anomaly-not-consecutive", "node n%d was above its high threshold in only %d consecutive round(s) ending now, condition needs %d, and it is not in an unresolved abnormal episode (last episode resolved by: %q)", c.Node, cons.streak[t][c.Node], cfg.AnomalyK, cons.closedBy[t][c.Node])
 			}
 		}
 		tier := -1
@@ -735,6 +859,9 @@ func c18Judge(cfg *c18Cfg, rd *c18Round, ref *c18Ref, calls []c18Call, cons *[2]
 			}
 			if cons != nil && cfg.AnomalyK >= 2 {
 				st.anomalyReleased = true
+				if cons.streak[tier][c.Node] < int(cfg.AnomalyK) {
+					st.hysteresisAccepted = true
+				}
 			}
 		}
 		if !c.FilterPass {
@@ -855,6 +982,7 @@ func (st *c18Stats) countInto(cnt func(string, int64)) {
 	b("rounds_evicting_pod_without_metric", st.noMetricEvicted)
 	b("rounds_anomaly_held_back", st.anomalyHeldBack)
 	b("rounds_anomaly_released", st.anomalyReleased)
+	b("rounds_eviction_accepted_only_by_unresolved_episode", st.hysteresisAccepted)
 	b("diag_number_of_nodes_passed_with_fewer_node_low_nodes", st.numNodesQuirk)
 }
 
